@@ -7,6 +7,9 @@ pub mod c03;
 pub mod c05;
 pub mod c06;
 pub mod c07;
+pub mod c08;
+pub mod c09;
+pub mod c10;
 pub mod c11;
 pub mod c12;
 pub mod c13;
@@ -23,6 +26,9 @@ pub fn dispatch(r: &mut Runner) -> bool {
         "C05" => c05::run(r),
         "C06" => c06::run(r),
         "C07" => c07::run(r),
+        "C08" => c08::run(r),
+        "C09" => c09::run(r),
+        "C10" => c10::run(r),
         "C11" => c11::run(r),
         "C12" => c12::run(r),
         "C13" => c13::run(r),
